@@ -60,6 +60,13 @@ def make_manager_class():
             rec = {"api": "async_reset", "t0": mw.w.now, "seq0": mw.next_seq(), "task": t.get_name() if t else None, "before": self._sample(), "t1": None, "exc": None}
             # connection endpoints open when the reset starts (C10: all closed once it is over)
             rec["conn_endpoints_before"] = [tr for tr in mw.w.loop.transports if not tr.closed and not tr.kw.get("allow_broadcast")]
+            # ... and the connection's tasks alive at that moment, with the instant each one ends
+            rec["conn_tasks_before"] = []
+            for tk in asyncio.all_tasks():
+                if tk.get_name().startswith(("SPA:", "FACADE:")) and not tk.done():
+                    ent = {"name": tk.get_name(), "done_at": None}
+                    rec["conn_tasks_before"].append(ent)
+                    tk.add_done_callback(lambda _t, ent=ent: ent.__setitem__("done_at", mw.w.now))
             mw.api.append(rec)
             try:
                 return await super().async_reset()
